@@ -44,6 +44,11 @@ type AV struct {
 	// ZeroDef: the value 0 is present because a struct field may still hold its zero value (the
 	// assignment that gives it its real value lives in a step that need not have run).
 	ZeroDef bool
+	// Raw: the value is an adversarial scalar as it arrived (an entry-point argument, a value pulled
+	// out of a parameters bag, a wide header field), possibly converted or offset/scaled by constants,
+	// but not yet combined with other variables. Only raw values qualify for the "no limit applied at
+	// all" witness shape.
+	Raw bool
 }
 
 const maxPieces = 4
@@ -118,6 +123,9 @@ func (a AV) String() string {
 	if !a.SanHi {
 		fl = append(fl, "hi-unlimited")
 	}
+	if a.Raw {
+		fl = append(fl, "raw")
+	}
 	if len(fl) > 0 {
 		s += " (" + strings.Join(fl, ",") + ")"
 	}
@@ -184,12 +192,12 @@ func Join(a, b AV) AV {
 		return a
 	}
 	ps, hulled := normalize(append(append([]Itv{}, a.P...), b.P...))
-	return AV{P: ps, Taint: a.Taint || b.Taint, Exact: a.Exact && b.Exact && !hulled, SanLo: a.SanLo && b.SanLo, SanHi: a.SanHi && b.SanHi, Bits: a.Bits | b.Bits, ZeroDef: a.ZeroDef || b.ZeroDef}
+	return AV{P: ps, Taint: a.Taint || b.Taint, Exact: a.Exact && b.Exact && !hulled, SanLo: a.SanLo && b.SanLo, SanHi: a.SanHi && b.SanHi, Bits: a.Bits | b.Bits, ZeroDef: a.ZeroDef || b.ZeroDef, Raw: a.Raw && b.Raw}
 }
 
 // Equal compares ranges and flags.
 func Equal(a, b AV) bool {
-	if len(a.P) != len(b.P) || a.Taint != b.Taint || a.Exact != b.Exact || a.SanLo != b.SanLo || a.SanHi != b.SanHi || a.Bits != b.Bits || a.ZeroDef != b.ZeroDef {
+	if len(a.P) != len(b.P) || a.Taint != b.Taint || a.Exact != b.Exact || a.SanLo != b.SanLo || a.SanHi != b.SanHi || a.Bits != b.Bits || a.ZeroDef != b.ZeroDef || a.Raw != b.Raw {
 		return false
 	}
 	for i := range a.P {
@@ -410,6 +418,7 @@ func Add(a, b AV) AV {
 	_, cb := isPoint(b)
 	r.Exact = (ca && b.Exact) || (cb && a.Exact)
 	r.SanLo, r.SanHi = a.SanLo && b.SanLo, a.SanHi && b.SanHi
+	r.Raw = (ca && b.Raw) || (cb && a.Raw)
 	r.fixBits()
 	return r
 }
@@ -423,6 +432,7 @@ func Sub(a, b AV) AV {
 	_, cb := isPoint(b)
 	r.Exact = (ca && b.Exact) || (cb && a.Exact)
 	r.SanLo, r.SanHi = a.SanLo && b.SanHi, a.SanHi && b.SanLo
+	r.Raw = cb && a.Raw
 	r.fixBits()
 	return r
 }
@@ -447,6 +457,7 @@ func Mul(a, b AV) AV {
 		r.SanLo = true
 		r.SanHi = a.SanHi && b.SanHi
 	}
+	r.Raw = (ca && b.Raw) || (cb && a.Raw)
 	r.fixBits()
 	return r
 }
